@@ -122,12 +122,12 @@ def generate(seed, tier="quick"):
     orng = sub(seed, "odd-constructors")
     if orng.random() < 0.15:
         # constructor shapes at the edge of the supported types: an attrs class with a private attribute (its __init__ argument has another
-        # name), a dataclass field that is no constructor argument, IntFlag values with bits that have no name, complex numbers with an infinite part
+        # name), a dataclass field that is no constructor argument, IntFlag values with bits that have no name, complex numbers with an infinite part, an object whose repr is a statement (`n=3`) rather than an expression
         f = prog["files"][0]
         n = orng.randint(0, 15)
         val = orng.choice([["raw", f"ATP(x={orng.randint(0, 3)})"], ["raw", f"ATP(x=[1], z={orng.randint(0, 2)})"], ["raw", f"DCI(x={orng.randint(0, 3)})"],
                            ["raw", f"IPerm({n})"], ["raw", f"[IPerm({n}), IPerm({orng.randint(0, 3)})]"], ["raw", 'complex("inf")'], ["raw", '[complex("-inf"), 1.5]'],
-                           ["raw", 'complex(1, float("inf"))'], ["raw", f'{{"k": ATP(x=DCI(x=1), z=IPerm({n}))}}']])
+                           ["raw", 'complex(1, float("inf"))'], ["raw", f"NoCodeStmt({n})"], ["raw", f"[NoCodeStmt({n}), 1]"], ["raw", f'{{"k": ATP(x=DCI(x=1), z=IPerm({n}))}}']])
         f["sites"]["oc1"] = {"op": orng.choice(["eq", "eq", "in", "item"]), "place": orng.choice(["direct", "func"]), "arg": None, "prev": None}
         e = {"t": "cmp", "eid": "eoc1", "site": "oc1", "vals": [val], "style": orng.choice(["assert", "rec"])}
         if f["sites"]["oc1"]["op"] == "item":
